@@ -21,6 +21,7 @@ import hashlib
 import io
 import itertools
 import json
+import os
 import numpy as np
 from scipy import sparse
 
@@ -1216,8 +1217,55 @@ def describe(prob, W):
     return f"{op['op']}: built cache tables {prob['tables']} differ from the pure tables"
 
 
-def fuzz(ctx, nhist, nops, salt, seen):
-    for h in range(nhist):
+class _MiniCtx:
+    """what a fuzzing worker needs of the check context (results are merged into the real one by the parent)"""
+
+    def __init__(self, seed, quick):
+        import common
+        self.seed, self.quick = seed, quick
+        self._c = common.Ctx("C13", "quick" if quick else "thorough", seed)
+        self.cases, self.counts, self.viol = [], {}, []
+
+    def npgen(self, salt):
+        return self._c.npgen(salt)
+
+    def case(self, canon, nontrivial=True, sample=None):
+        self.cases.append((canon, nontrivial, sample if len(self.cases) < 6 else None))
+
+    def count(self, k, n=1):
+        self.counts[k] = self.counts.get(k, 0) + n
+
+    def violate(self, sig, what, replay):
+        self.viol.append((sig, what, replay))
+
+
+def _fuzz_chunk(args):
+    seed, quick, lo, hi, nops, salt = args
+    m = _MiniCtx(seed, quick)
+    _fuzz(m, range(lo, hi), nops, salt, set())
+    return m.cases, m.counts, m.viol
+
+
+def fuzz(ctx, nhist, nops, salt, seen, workers=1):
+    """`nhist` random histories of `nops` operations; histories are independent (own seeds), so they can be spread over
+    worker processes without changing what is explored"""
+    if workers <= 1:
+        return _fuzz(ctx, range(nhist), nops, salt, seen)
+    import multiprocessing as mp
+    step = max(1, nhist // (workers * 4))
+    jobs = [(ctx.seed, ctx.quick, lo, min(nhist, lo + step), nops, salt) for lo in range(0, nhist, step)]
+    with mp.get_context("fork").Pool(workers) as pool:
+        for cases, counts, viol in pool.imap(_fuzz_chunk, jobs):
+            for canon, nt, sample in cases:
+                ctx.case(canon, nontrivial=nt, sample=sample)
+            for k, v in counts.items():
+                ctx.count(k, v)
+            for sig, what, replay in viol:
+                ctx.violate(sig, what, replay)
+
+
+def _fuzz(ctx, hrange, nops, salt, seen):
+    for h in hrange:
         g = ctx.npgen(f"{salt}-{h}")
         S = init_specs(g, ctx.quick)
         import random
@@ -1290,7 +1338,8 @@ def oracle(ctx, volume=1):
     seen = set()
     basis_clause(ctx)
     nhist, nops = ((300, 12) if ctx.quick else (3000, 30))
-    fuzz(ctx, nhist * volume, nops, f"fuzz{volume}", seen)
+    workers = 1 if ctx.quick else max(1, min(12, (os.cpu_count() or 2) - 2))
+    fuzz(ctx, nhist * volume, nops, f"fuzz{volume}", seen, workers=int(os.environ.get("C13_WORKERS", workers)))
     ctx.rule = ("one case = one operation of a random history, compared with its evaluation on fresh equal-valued arguments and "
                 "followed by a byte-level snapshot comparison of the whole pool; non-trivial = the operation returned a value "
                 "(did not raise in both worlds); distinct by (history, step, operation, operands)")
